@@ -1,7 +1,10 @@
 PROPS["C11"] = dict(
     jobs=[job("memviews", "c11_memviews", cases={Q: 24, T: 1500}),
           # same histories under ASan+UBSan (raw pointer, user-supplied buffer, interpreter accesses at the array borders)
-          job("asan", "c11_memviews", flavour="asan", cases={Q: 3, T: 100})],
+          job("asan", "c11_memviews", flavour="asan", cases={Q: 3, T: 100}),
+          # every instruction handler of the decode table with its pointers inside the MMIO window: window twin (A) vs
+          # relocated-window twin (B), SharedMemory observer on both
+          job("forms", "c11_forms", cases={Q: 1000, T: 40000})],
     crash_is_violation=True,
     rule="per case one Teakra facade (even cases: owned memory, odd cases: UserConfig.dsp_memory) with random contents and a "
          "history of 20000 operations chosen among ProgramRead/Write, DataRead/Write with and without bypass_mmio, "
@@ -12,15 +15,22 @@ PROPS["C11"] = dict(
          "operation the touched word is read through raw pointer, ProgramRead, DataReadA32, DataRead(bypass) and DataRead; "
          "the whole array is compared every 64 operations. Accesses honouring the MMIO window are steered to side-effect-free "
          "probe registers (0x000, 0x7FF, timer start 0x24/0x26/0x34/0x36, ICU vector 0x214). distinct_nontrivial = distinct "
-         "(operation/addressing form, memory region prog/bank0/bank1, window/bypassed/memory, probe register) keys executed and compared",
+         "(operation/addressing form, memory region prog/bank0/bank1, window/bypassed/memory, probe register) keys executed and compared "
+         "+ (instruction handler, r/w/rw) pairs whose window accesses were observed by the forms monitor. forms: cases rotate over ALL handlers of "
+         "the decode table, r0-r7/page/second word pointing at storage registers inside the window; one Run(1) on a facade with the window at 0x8000 (A) "
+         "and on one with the window relocated to 0xF800 and the register values laid down in memory (B); the SharedMemory observer must see no access "
+         "of A to the words under the window, those words stay unchanged, and when B only touched storage registers A and B end in the same register "
+         "state, the same accesses elsewhere, and A's registers read back what B's memory holds",
     floors={Q: {"ops": 5000000, "guest_instructions": 1800000, "guest_loads": 500000, "guest_stores": 600000, "fetch_probes": 300000,
                 "guest_program_loads": 200000, "guest_movd": 100000, "guest_movp_mem": 100000,
                 "mmio_window_writes": 200000, "mmio_window_reads": 150000, "mmio_window_zpage1_assert": 150000,
                 "bypass_writes_inside_window": 30000, "bypass_reads_inside_window": 30000, "full_compares": 80000,
                 "mmio_bases_probed": 1000, "mmio_documented_positions_probed": 64, "cases_user_memory": 150,
-                "cases_owned_memory": 150, "z_page_switches": 100000, "config_through_window": 30000},
+                "cases_owned_memory": 150, "z_page_switches": 100000, "config_through_window": 30000,
+                "cases_with_window_access": 3000, "value_twins_compared": 1500, "window_handlers": 60},
             T: {"ops": 150000000, "guest_instructions": 40000000, "mmio_window_writes": 2000000, "mmio_window_reads": 2000000,
-                "mmio_window_zpage1_assert": 500000, "mmio_bases_probed": 10000, "mmio_documented_positions_probed": 64, "full_compares": 2000000}},
+                "mmio_window_zpage1_assert": 500000, "mmio_bases_probed": 10000, "mmio_documented_positions_probed": 64, "full_compares": 2000000,
+                "cases_with_window_access": 120000, "value_twins_compared": 60000, "window_handlers": 60}},
     ready=True,
     technique="runtime monitoring: byte-array reference model of the shared memory compared through every host and guest view of "
               "the real Teakra facade after each operation",
